@@ -1,11 +1,11 @@
-SPECIFICATION DocSpec
+SPECIFICATION Spec
 CONSTANTS
   Langs = {"c", "cpp"}
-  BaseSet = "families"
+  BaseSet = "core"
   MaxMut = 1
   MinMut = 0
   MaxBoth = 1
   Star = TRUE
   HashBits = 32
-INVARIANT EmitDoc
+INVARIANT Emit
 CHECK_DEADLOCK FALSE
